@@ -67,12 +67,14 @@ Definition spec_ok (S : sets) (o : op) : bool :=
   match o with
   | Add s ds | Update s ds => spec_accepts S s ds
   | Delete _ => true
+  | Refused _ => false
   end.
 
 Definition spec_step (S : sets) (o : op) : sets :=
   match o with
   | Add s ds | Update s ds => if spec_accepts S s ds then put_set S s ds else S
   | Delete s => del_set S s
+  | Refused _ => S
   end.
 
 Definition current_from (S : sets) (ops : list op) : sets := fold_left spec_step ops S.
@@ -99,10 +101,10 @@ Definition wf_history (ops : list op) : bool := wf_from [] ops.
 
 (** the rule set an operation brings *)
 Definition op_set (o : op) : list rdef :=
-  match o with Add _ ds | Update _ ds => ds | Delete _ => [] end.
+  match o with Add _ ds | Update _ ds => ds | Delete _ | Refused _ => [] end.
 
 Definition op_src (o : op) : nat :=
-  match o with Add s _ | Update s _ | Delete s => s end.
+  match o with Add s _ | Update s _ | Delete s | Refused s => s end.
 
 Definition def_pats (d : rdef) : list pat := pats [d].
 
@@ -222,3 +224,7 @@ Definition no_guard_fx (fx : fixes) (ops : list op) : bool :=
         (negb (fix_F5 fx) && guard_F5 ops) || guard_dupid ops).
 
 Definition no_guard (ops : list op) : bool := no_guard_fx no_fix ops.
+
+(** the guards of the findings that are open in the tree as it is now (C06-F3, F4,
+    F5 are repaired: fix: commits 2d9cd1f, 003095f, f6ce52b) *)
+Definition open_guards (ops : list op) : bool := guard_F1 ops || guard_F2 ops || guard_dupid ops.
